@@ -1,5 +1,5 @@
 (* Extraction of the assembler streamer model. *)
 From Coq Require Import Extraction ExtrOcamlBasic ZArith List String.
-From GR Require Import Base.Result IR.State Asm.Model Asm.TempPrefix Asm.CreateIR.
+From GR Require Import Base.Result IR.State Asm.Model Asm.TempPrefix Asm.CreateIR Asm.PatchIds.
 Extraction Language OCaml.
-Extraction "asm_model.ml" assemble run finalize init mk_atarget mk_fixup abi_temporary_label_prefix temporary_label mc_is_temporary symbol_name supported ir_sizes ir_alignment Z.add Z.of_nat String.eqb.
+Extraction "asm_model.ml" assemble run finalize init mk_atarget mk_fixup abi_temporary_label_prefix temporary_label mc_is_temporary symbol_name supported ir_sizes ir_alignment last_used_patch_id patch_suffix Z.add Z.of_nat String.eqb.
